@@ -22,7 +22,6 @@ func newTimeSeries(attack, label string) *timeSeries {
 	return &timeSeries{
 		attack: attack,
 		label:  label,
-		data:   tsz.New(0),
 	}
 }
 
@@ -33,7 +32,15 @@ func (ts *timeSeries) add(t uint64, v float64) error {
 		return errMonotonicTimestamp
 	}
 
-	ts.data.Push(t, v)
+	// tsz treats a zero timestamp as "no point yet" and stores the offset of
+	// such first points from the block start in 27 bits only, which a series
+	// whose first points are 2^27ms (~37h) into the attack overflows. Hence
+	// timestamps are stored shifted by one, in a block starting at the first.
+	if ts.data == nil {
+		ts.data = tsz.New(t + 1)
+	}
+
+	ts.data.Push(t+1, v)
 	ts.prev = t
 	ts.len++
 
@@ -41,13 +48,17 @@ func (ts *timeSeries) add(t uint64, v float64) error {
 }
 
 func (ts *timeSeries) iter() lttb.Iter {
+	if ts.data == nil {
+		return func(int) ([]lttb.Point, error) { return nil, nil }
+	}
+
 	it := ts.data.Iter()
 	return func(count int) ([]lttb.Point, error) {
 		ps := make([]lttb.Point, 0, count)
 		for i := 0; i < count && it.Next(); i++ {
 			t, v := it.Values()
 			ps = append(ps, lttb.Point{
-				X: time.Duration(t * 1e6).Seconds(),
+				X: time.Duration((t - 1) * 1e6).Seconds(),
 				Y: v,
 			})
 		}
